@@ -6,7 +6,7 @@ RULE = (
     '(The boundary may also answer one stat / lstat / readlink / listdir of an operation - for the collector in 30% of its failpoint runs - with a transient EIO; an operation may fail with it or go on, every link it removes on the way is judged; os.path.exists of the three modules goes through the same boundary.) '
     'Five kinds of cases, chosen per case from the case rng. (vip|rule|spec) 25-70 (thorough: 25-140) generated operations on the real '
     'VipMgr / RuleMgr / EndpointsMgr over a real temp directory: 3-7 owners (unique container names; endpoint owners '
-    'are incarnations of 1-3 instances) appear and disappear (owner path created / removed) at random points and never '
+    'are incarnations of 1-3 instances; an owner path is a directory, a link to a directory or a regular file) appear and disappear (owner path created / removed) at random points and never '
     'come back; create (automatic and picked IPs in a /30../27 network driven to exhaustion and back, optionally a '
     'second pool on the same directory; 3-9 rule names / 2-5 spec names per instance shared by all owners; in 45% of '
     'the rule cases about half of the rules live in site chains whose names are not of the TM_* word form - a dash, as '
@@ -40,7 +40,9 @@ ASSUMPTIONS = [
     'os / glob globals of treadmill.vipfile, rulefile, endpoints rebound to a forwarding proxy (vf/owndb/osproxy.py): '
     'every call reaches the real os on a real temp directory; listdir/glob results are returned in a seeded order '
     '(POSIX leaves it unspecified); failpoints run other actors\' operations between two system calls',
-    'owners are directories created/removed by the harness (vips: <svc>/resources/<id> links to request dirs)',
+    'owners are paths created/removed by the harness: a directory (3 owners in 5), a link to a directory (as '
+    '<svc>/resources/<id> links to request dirs) or a regular file (a pid / state file) - the databases store the '
+    'path and take its existence for the life of the owner',
     'NetworkResourceService: subproc.check_call/invoke (ip link/addr, brctl, ipset) -> link/bridge/ipset state model '
     '(vf/owndb/kernel.py); netdev._SYSFS_NET -> temp tree mirrored from the model (netdev\'s readers run for real); '
     'netdev._proc_sys_write recorded; _TM_CIDR set to a /30../27 network; a kill = BaseException at the k-th call '
@@ -53,7 +55,7 @@ ASSUMPTIONS = [
 BUDGET = {'quick': (56, 38.0), 'thorough': (520, 285.0)}
 REQUIRED_REACH = {'*': [
     'ops_vip_create', 'ops_rule_create', 'ops_spec_create', 'ops_vip_gc', 'ops_rule_gc', 'ops_spec_gc',
-    'create_conflicts', 'release_by_nonowner', 'release_by_owner', 'gc_mixed', 'rule_gc_dead_owner_site_chain',
+    'create_conflicts', 'create_conflicts_holder_is_file', 'create_conflicts_holder_is_link', 'release_by_nonowner', 'release_by_owner', 'gc_mixed', 'rule_gc_dead_owner_site_chain',
     'vip_exhausted_raises', 'vip_alloc_after_exhaustion',
     'failpoints_fired', 'nested_ops', 'interleaved_gc', 'interleaved_create_ok',
     'netsvc_restarts_with_entries', 'netsvc_repeated_request_same_ip', 'netsvc_synchronize_reclaimed',
